@@ -38,6 +38,20 @@ CHECKS.update({
          'Deterministic operation counting replaces wall-clock: to_boc / from_boc / hashing of doubling ladders (height up to 200, thorough 1000), lattices and random DAGs must stay within linear bounds in n+e (measured constants ~7-10x below the bound); the BoC parser on encodings with inflated count fields and on random byte strings must stay within a bound linear in the input length. The statement\'s "fraction of a second" is replaced by these hardware-independent counts plus a 10 s CPU ceiling per case.',
          'Counts Python-level calls inside the library only (C-level loops are covered by the CPU ceiling). Bounds are linear with generous constants: a quadratic regression is caught from ~100 cells on, an exponential one immediately.', '§6 C19'),
 })
+CHECKS.update({
+ 'C06': ('exhaustive boundary grids (every width x boundary values; every var-int byte length; every external-address length; every anycast depth) + Hypothesis capacity-constructed typed sequences; round-trip + bit-exact oracle vs independent TL-B writer',
+         'Typed store/load sequences constructed against a running capacity model are stored with Builder and compared bit for bit with an independent TL-B bit-string writer, then loaded back (with preload before every load) and compared value for value, requiring nothing left unread. Exhaustive grids cover every width, every variable-length byte class (incl. top-bit-set values), all address forms incl. anycast and zero-length external addresses, and snake strings 0..1000 bytes.',
+         'Trusts harness/ref/refbits.py (self-tested on hand-computed vectors). Where the snake chain is cut is not asserted (TEP-64 does not fix it).', '§6 C06'),
+ 'C09': ('exhaustive enumeration of all key subsets for widths 1..3 (thorough: 4) + Hypothesis maps over widths 1..1023, key forms and value kinds; model = python dict',
+         'Model-based round trip: maps are inserted in generated orders through every key form, serialised, and read back through load_hashmap / HashMap.parse / from_cell / load_dict / preload_dict (also at a non-zero slice offset); results must equal the dict model, be in ascending key order and be independent of insertion order; maps whose canonical tree cannot fit a cell must raise; out-of-range and negative keys must be rejected.',
+         'Trusts refdict.py only to decide whether a tree fits in cells. Key contents are sampled for widths > 4.', '§6 C09'),
+ 'C10': ('exhaustive enumeration of all (max_len, len, uniform) label triples (thorough: all 1 574 400) + Hypothesis trees; differential vs reference dict.cpp rules; foreign-encoding completeness incl. pruned subtrees',
+         'The label-kind decision is compared with the dict.cpp rule for every triple; serialised maps must hash like the independently built canonical Patricia tree; trees built by the reference with an arbitrary valid label kind per edge, HashmapAug trees with extras, and trees with edges replaced by pruned branches must parse to exactly the non-pruned leaves (extras as a multiset).',
+         'Trusts refdict.py (transcription of append_dict_label/_same; reproduces the hash pinned in tests/test_hashmap.py) and refcell.py.', '§6 C10'),
+ 'C17': ('enumerated structured grid + Hypothesis stacks and continuations; round-trip, independent VmStack schema decoder, snapshot-equality of caller-held values',
+         'Generated stacks (ints at the 64/257-bit form boundaries, cells, partly consumed slices, builders, nested tuples of length 0,1,2,3+, all ten continuation kinds with control data) are serialised twice; an independent decoder working only on bits/refs must read the VmStack schema values, the library must read back equal values, both cells must be equal and every caller-held value must equal its pre-call snapshot.',
+         'Trusts harness/ref/refvmstack.py (self-tested on hand-assembled encodings). vm_stk_nan not covered.', '§6 C17'),
+})
 NOT_YET = {}
 
 def main():
